@@ -290,6 +290,25 @@ pub fn getsockname_port(fd: i32) -> Option<u16> {
 }
 
 /// Blocking accept on a libc listener. `Err(errno)`.
+/// Are these two descriptors the two ends of one TCP connection (each one's local address is the other's
+/// peer address)? With many workers binding and connecting loopback ports, a listener can be reached by a
+/// client that is not the one the case made; a pair that is not a pair says nothing about the library.
+pub fn tcp_same_connection(a: i32, b: i32) -> bool {
+    let name = |fd: i32, peer: bool| -> Option<(u32, u16)> {
+        unsafe {
+            let mut sa: libc::sockaddr_in = core::mem::zeroed();
+            let mut len = core::mem::size_of::<libc::sockaddr_in>() as libc::socklen_t;
+            let p = &mut sa as *mut libc::sockaddr_in as *mut libc::sockaddr;
+            let r = if peer { libc::getpeername(fd, p, &mut len) } else { libc::getsockname(fd, p, &mut len) };
+            (r == 0 && i32::from(sa.sin_family) == libc::AF_INET).then_some((sa.sin_addr.s_addr, sa.sin_port))
+        }
+    };
+    match (name(a, false), name(a, true), name(b, false), name(b, true)) {
+        (Some(al), Some(ap), Some(bl), Some(bp)) => al == bp && ap == bl,
+        _ => false,
+    }
+}
+
 pub fn libc_accept(listener: i32) -> Result<OwnedRaw, i32> {
     loop {
         let fd = unsafe { libc::accept4(listener, core::ptr::null_mut(), core::ptr::null_mut(), libc::SOCK_CLOEXEC) };
